@@ -174,6 +174,11 @@ func c17grammarAs(c *core.Ctx, R string) {
 			if !iok {
 				continue
 			}
+			if len(ni.rts) > maxRTS || len(ni.stack) > 4*maxNesting+8 {
+				report(core.F("growth:%s:%q", it.ic.step, rune(b)), fpos, core.F("state %s on byte %q", it.ic.step, rune(b)),
+					core.F("a stack of the scanner grows without bound on input whose nesting is bounded (return stack %d, lexeme stack %d after %q): a push without a matching pop", len(ni.rts), len(ni.stack), it.w+string(rune(b))))
+				continue
+			}
 			k := ni.key() + "#" + nr.key()
 			if !seen[k] {
 				seen[k] = true
